@@ -245,6 +245,14 @@ PROPERTIES = {
             {"name": "variants", "cases": FE.c12_cases(tier, seed), "mask": M_GRAD | {"values", "dims", "unexpected-panic", "immutable"},
              "what": "random programs, each with two handle-transparent variants, plus gradient visibility through clones",
              "require": {"passes": 500}},
+            {"name": "variants_bitwise", "cases": FE.variant_groups(FE.random_cases(seed + 8, 400 if tier == "thorough" else 120, handles=False), None),
+             "post": FE.relate_variants, "mask": {"variant-differs"},
+             "what": "relation: every operation value and every final gradient of a variant must be bitwise identical (digest) to the base program's",
+             "require": {"variants_compared": 100}},
+            {"name": "variants_bitwise_real", "cases": FE.variant_groups(FR.real_program_cases(tier, seed + 4)[:150 if tier == "quick" else 600], None),
+             "spec": "TraceReal", "real": True, "post": FE.relate_variants, "mask": {"variant-differs", "real-value", "grad-presence"},
+             "what": "the same relation in the real domain (transcendental operations), where the specification gives no exact number: identical bit patterns between a program and its variants",
+             "require": {"variants_compared": 100}},
         ],
         "rule": "a case = one program or one of its variants; distinct by program hash",
     },
